@@ -1,1 +1,64 @@
-(* statements for the id-registry part of C03; filled in by the proof work described in TARGETS.md *)
+(** C03, id-registry part -- ONLY statements (definitions [registry], [ids_ok] are in Defs.v).
+    The state machine is Edit.ModelSM (tied to src/mxlpy/model.py by harness/c03.py).  None of
+    these statements depends on the regenerated [invalidates] table. *)
+From Coq Require Import ZArith List Bool.
+From MxlBase Require Import ListX.
+From Core Require Import Sort GenSortFacts FnLib Model Cache Query.
+From Edit Require Import GenEditFacts ModelSM.
+From EditP Require Import Defs ProofsHist.
+Import ListNotations.
+
+(** T1: all kinds of component share one name space, after ANY history: the registry [_ids] has
+    unique keys, never contains "time", the containers (and the surrogate outputs) are pairwise
+    disjoint and duplicate free, and [_ids] holds exactly the stored names with their kinds *)
+Theorem C03_single_namespace : forall h : list op, ids_ok (run_history h).
+Proof. exact history_ok. Qed.
+Print Assumptions C03_single_namespace.
+
+(** T2: an edit that is rejected changes nothing (registry and content; the memoised cache may be
+    dropped, which C03_history_equals_fresh shows to be unobservable) *)
+Theorem C03_rejected_changes_nothing :
+  forall (h : list op) (mu : mutator) (s' : st) (e : err),
+    mutate (run_history h) mu = (s', Rejected e) ->
+    s_ids s' = s_ids (run_history h) /\ s_m s' = s_m (run_history h).
+Proof. exact rejected_changes_nothing. Qed.
+Print Assumptions C03_rejected_changes_nothing.
+
+(** T3: the fuel of the model (nesting depth of public calls) is never exhausted *)
+Theorem C03_never_out_of_fuel :
+  forall (h : list op) (mu : mutator) s', mutate (run_history h) mu <> (s', Rejected EFuel).
+Proof. exact never_out_of_fuel. Qed.
+Print Assumptions C03_never_out_of_fuel.
+
+(** T4: a name freed by a removal can be used again, under any kind *)
+Theorem C03_name_reusable :
+  forall (h : list op) (rm : mutator) (n : name) (s1 : st),
+    In rm [RemovePar n; RemoveVar n true; RemoveVar n false; RemoveDer n; RemoveRxn n; RemoveRo n;
+           RemoveSur n; RemoveDat n] ->
+    mutate (run_history h) rm = (s1, Accepted) ->
+    forall (add : mutator),
+      (exists v, add = AddPar n v) \/ (exists v, add = AddVar n v) \/ (exists f a, add = AddDer n f a)
+      \/ (exists f a st, add = AddRxn n f a st) \/ (exists f a, add = AddRo n f a) \/ (exists v, add = AddDat n v) ->
+      exists s2, mutate s1 add = (s2, Accepted).
+Proof. exact name_reusable. Qed.
+Print Assumptions C03_name_reusable.
+
+(** non-vacuity: a history with a surrogate (outputs 21, 22), a query, a rejected edit (21 is taken
+    by the surrogate), and a remove-then-re-add of 12 under another kind.  The registry is the one
+    the containers dictate; a further duplicate is rejected with NameError, repeated surrogate
+    outputs are rejected; removing the surrogate frees 21 for a variable. *)
+Example C03b_nonvacuous :
+  let h := [Mut (AddVar 12%N (Plain 1%Z)); Mut (AddPar 11%N (Plain 2%Z));
+            Mut (AddSur 15%N (mkSur 1%N [12%N; 11%N] [21%N; 22%N] [(21%N, [(12%N, CStat 1%Z)])]) None None None);
+            Ask (QArgs None 0%Z);
+            Mut (AddPar 21%N (Plain 5%Z));
+            Mut (RemoveVar 12%N true); Mut (AddDer 12%N 3%N [11%N])] in
+  s_ids (run_history h) = [(11%N, KPar); (15%N, KSur); (21%N, KSur); (22%N, KSur); (12%N, KDer)]
+  /\ registry (s_m (run_history h)) = [(11%N, KPar); (12%N, KDer); (15%N, KSur); (21%N, KSur); (22%N, KSur)]
+  /\ snd (mutate (run_history h) (AddPar 21%N (Plain 5%Z))) = Rejected EName
+  /\ snd (mutate (run_history h) (AddSur 30%N (mkSur 1%N [] [31%N; 31%N] []) None None None)) = Rejected EName
+  /\ snd (mutate (run_history h) (AddVar 0%N (Plain 5%Z))) = Rejected EKey
+  /\ snd (mutate (run_history h) (RemoveSur 15%N)) = Accepted
+  /\ snd (mutate (fst (mutate (run_history h) (RemoveSur 15%N))) (AddVar 21%N (Plain 0%Z))) = Accepted.
+Proof. cbv zeta. repeat split; vm_compute; reflexivity. Qed.
+Print Assumptions C03b_nonvacuous.
